@@ -44,6 +44,9 @@ def shout(s):
     return s.upper()
 def broken(a):
     return [][a]
+def quitter():
+    import sys
+    sys.exit(3)
 '''
 
 VALUES = ['0', '1', '-1', '5', '3', '5.0', '5.0004', '5.002', '4.9995', '50000000.0', '50000000.04', '50000000', '3000000001.5', '3000000000',
@@ -57,6 +60,9 @@ LENGTHS = ['0', '1', '2', '3', "'a'", 'None', '2.0']
 CLASSES = ['int', 'float', 'str', 'list', 'tuple', 'dict', 'set', 'bool', 'type(None)', 'object', '(list, tuple)']
 REGEXES = ["'a'", "'^h'", "'l+o'", "'['", "'\\\\d+'", "'World'", "''"]
 ERR = '!error'
+# other operands that are errors: a call that ended in sys.exit(), an exception object that never went through the sandbox
+ERR_EXIT, ERR_RAW = '!exit', '!raw-exception'
+ERRORS = (ERR, ERR_EXIT, ERR_RAW)
 
 BINARY_FAMILIES = {
     # name: (positive assertion, negative assertion or None, relation on received operands)
@@ -124,6 +130,11 @@ def make_operand(src, wrapped, sb):
     if src == ERR:
         r = sb.call('boom')
         return r, None, True
+    if src == ERR_EXIT:
+        r = sb.call('quitter')
+        return r, None, True
+    if src == ERR_RAW:
+        return ValueError('an exception object as operand'), None, True
     raw = eval(src, {'__builtins__': __builtins__})
     if not wrapped:
         return raw, raw, False
@@ -138,6 +149,16 @@ def run_assertion(name, args, kwargs):
     import pedal.assertions.runtime as R
     from pedal.core.report import MAIN_REPORT
     fn = getattr(R, name)
+    if kwargs.get('_testcase'):
+        # the unittest-style front end: PedalTestCase().assertLessEqual(a, b, msg)
+        from pedal.assertions.unittest import PedalTestCase
+        camel = 'assert' + ''.join(w.capitalize() for w in name.split('_')[1:])
+        kwargs = {k: v for k, v in kwargs.items() if k != '_testcase'}
+        if not hasattr(PedalTestCase, camel):
+            fn = getattr(R, name)
+        else:
+            method = getattr(PedalTestCase(), camel)
+            fn = lambda *a, **k: method(*a, 'a unittest-style message', **k)
     try:
         fb = fn(*args, **kwargs)
     except Exception as e:
@@ -206,7 +227,7 @@ def ref_equal(a, b, exact, delta=DELTA):
 
 
 def operand_kind(src):
-    if src == ERR:
+    if src in ERRORS:
         return 'error'
     v = eval(src)
     return type(v).__name__
@@ -218,7 +239,11 @@ def judge_binary(case):
     a_src, b_src = case['a'], case['b']
     exact = case.get('exact', False)
     kwargs = {'exact_strings': exact} if fam == 'equal' else {}
-    viol, classes = [], ['family=' + fam]
+    if case.get('present'):
+        # keywords that only shape the message must not change the verdict
+        kwargs.update({'explanation': {'explanation': 'because I say so'}, 'context': {'context': 'in this context'}, 'assertion': {'assertion': 'my wording'},
+                       'silent-context': {'context': False, 'assertion': False}, 'testcase': {'_testcase': True}}[case['present']])
+    viol, classes = [], ['family=' + fam] + (['presentation-kwargs'] if case.get('present') else [])
     outcomes = {}
     relation_by_wrap = {}
     for wrap in ('rr', 'pr', 'rp', 'pp'):
@@ -310,7 +335,7 @@ def judge_binary(case):
                 viol.append(V('C07|%s|wrapping-dependent' % name, '%s(%s, %s)%s gives %r depending on raw/proxy wrapping'
                               % (name, a_src, b_src, ' exact_strings' if exact else '', outs)))
     nontrivial = False
-    if ERR in (a_src, b_src):
+    if a_src in ERRORS or b_src in ERRORS:
         nontrivial = True
     else:
         av, bv = eval(a_src), eval(b_src)
@@ -372,9 +397,9 @@ def judge_unary(case):
                 viol.append(V('C07|%s|silent-but-relation-false|%s' % (neg, kind), desc))
             if not expect and n[0] == 'failing':
                 viol.append(V('C07|%s|fails-but-relation-holds|%s' % (neg, kind), desc))
-    if outs['r'] != outs['p'] and case['a'] != ERR:
+    if outs['r'] != outs['p'] and case['a'] not in ERRORS:
         viol.append(V('C07|%s|wrapping-dependent' % pos, '%s(%s): %r' % (pos, case['a'], outs)))
-    nontrivial = case['a'] == ERR or isinstance(eval(case['a']), (list, tuple, dict, set, str))
+    nontrivial = case['a'] in ERRORS or isinstance(eval(case['a']), (list, tuple, dict, set, str))
     return Result(dedupe(viol), nontrivial, ['family=' + fam])
 
 
@@ -637,7 +662,7 @@ def judge(case):
 
 
 def table(tier):
-    vals = VALUES + [ERR]
+    vals = VALUES + list(ERRORS)
     for fam in BINARY_FAMILIES:
         if fam.startswith('length'):
             seconds = LENGTHS
@@ -647,13 +672,23 @@ def table(tier):
             seconds = vals
         firsts = REGEXES + [ERR] if fam == 'regex' else vals
         for a, b in itertools.product(firsts, seconds):
-            if a == ERR and b == ERR:
+            if a in ERRORS and b in ERRORS:
                 continue
             if fam == 'equal':
                 yield {'kind': 'binary', 'family': fam, 'a': a, 'b': b, 'exact': False}
                 yield {'kind': 'binary', 'family': fam, 'a': a, 'b': b, 'exact': True}
             else:
                 yield {'kind': 'binary', 'family': fam, 'a': a, 'b': b}
+    # message-shaping keywords and the unittest-style front end must not change any verdict
+    sample = ['5', '3', '5.0004', "'a'", "'A'", '[1, 2]', 'None', ERR]
+    for fam in BINARY_FAMILIES:
+        seconds = LENGTHS[:4] if fam.startswith('length') else CLASSES[:4] if fam == 'is_instance' else sample
+        firsts = REGEXES[:3] if fam == 'regex' else sample
+        for a, b in itertools.product(firsts, seconds):
+            if a in ERRORS and b in ERRORS:
+                continue
+            for present in ('explanation', 'context', 'assertion', 'silent-context', 'testcase'):
+                yield {'kind': 'binary', 'family': fam, 'a': a, 'b': b, 'present': present}
     for fam in UNARY_FAMILIES:
         for a in vals:
             yield {'kind': 'unary', 'family': fam, 'a': a}
